@@ -34,7 +34,18 @@ T9 = {
     "core/tokens.cpp": ["tokens_get", "tokens_unget_char"],
     "main/naken_asm.cpp": ["main", "output_hex_text"],
     "core/tokens.h": ["tokens_get", "tokens_unget_char"],
-    "fileio/read_hex.cpp": ["get_hex"],
+    "fileio/read_hex.cpp": ["get_hex", "read_hex"],
+    "fileio/read_hex.h": ["read_hex"],
+    "fileio/read_srec.cpp": ["get_hex", "ignore_line", "read_srec"],
+    "fileio/read_srec.h": ["read_srec"],
+    "fileio/read_bin.cpp": ["read_bin"],
+    "fileio/read_bin.h": ["read_bin"],
+    "fileio/read_wdc.cpp": ["read_wdc", "read_int24"],
+    "fileio/read_wdc.h": ["read_wdc", "read_int24"],
+    "fileio/read_ti_txt.cpp": ["read_ti_txt"],
+    "fileio/read_ti_txt.h": ["read_ti_txt"],
+    "fileio/read_uf2.cpp": ["read_uf2", "read_block"],
+    "fileio/read_uf2.h": ["read_uf2"],
     "core/Macros.h": ["macros_expand_params"],
 }
 
